@@ -292,7 +292,7 @@ Proof. vm_compute. repeat split; reflexivity. Qed.
 
 (* ---- the remaining writers of the statement --------------------------------------------------- *)
 From RV Require Import Btree.Guard Btree.GuardP Btree.ShapeGuard Btree.ShapeGuardP
-  Btree.Scan Btree.RangeMut Btree.ScanTree Btree.ScanTreeP Btree.SpliceP Btree.SpliceTreeP Btree.ScanP Btree.RetainTreeP Btree.ProgramX.
+  Btree.Scan Btree.RangeMut Btree.ScanTree Btree.ScanTreeP Btree.SpliceP Btree.SpliceTreeP Btree.ScanP Btree.ScanBackP Btree.RetainTreeP Btree.ProgramX Btree.ProgramXE.
 
 (* get_mut(k) followed by AccessGuardMut::insert(v) (in place, or the leaf rebuilt on a new page and the
    parent pointer patched): the entry's value is replaced, nothing else changes; absent key: nothing happens *)
@@ -363,8 +363,9 @@ Proof. exact (@t_retain_refines). Qed.
 
 (* extract_if / extract_from_if (BtreeExtractIf over RangeMut, RangeMut.v) consumed from the FRONT: any number of
    next() calls, then the iterator is dropped or closed.  The yields and the final contents are those of the
-   specification iterator; the invariant is kept.  (The back end stays parked at the upper bound.  NOT covered:
-   next_back() and mixed consumption, i.e. parking the front end, activating the back end, pending batches.) *)
+   specification iterator; the invariant is kept.  (The back end stays parked at the upper bound.  The mirror
+   statement for next_back() is c04_extract_backward_refines below.  NOT covered by either: scripts that MIX next()
+   and next_back(), i.e. parking a live end, activating the other one, pending batches.) *)
 Theorem c04_extract_forward_refines : forall K V (cmp : K -> K -> comparison), OrderLaws cmp ->
   forall (ksize : K -> N) (vsize : V -> N) (fixed_k fixed_v : bool) (page_size : N) (sep : K -> K -> K),
   valid_sep cmp sep ->
@@ -375,6 +376,45 @@ Theorem c04_extract_forward_refines : forall K V (cmp : K -> K -> comparison), O
   TreeInv cmp (t_extract_close cmp ksize vsize fixed_k fixed_v page_size sep entry_eqb x) /\
   abs_tree (t_extract_close cmp ksize vsize fixed_k fixed_v page_size sep entry_eqb x) = ext_finish st.
 Proof. exact (@t_extract_forward_refines). Qed.
+
+(* extract_if / extract_from_if consumed from the BACK: any number of next_back() calls (t_xrun with the script
+   `repeat false n`: every step is BtreeExtractIf::next_back over RangeMut with Direction::Previous), then the
+   iterator is dropped or closed.  The yields and the final contents are those of the specification's double-ended
+   iterator consumed from the back; the invariant is kept.  The back end is a BACKWARD gap cursor (batches recorded
+   in decreasing order and reversed by take_removals_ascending, coalescing runs growing towards smaller leaf
+   numbers, reseek Before(first key) after a rewrite -- ScanBackP.v mirrors ScanP.v for Direction::Previous and
+   needs one more store law, `more_prev`, proved for the tree in RetainTreeP.t_more_prev); the front end stays
+   parked at the lower bound.  Empty / reversed bounds are included (the upper cut may then lie inside x_pre). *)
+Theorem c04_extract_backward_refines : forall K V (cmp : K -> K -> comparison), OrderLaws cmp ->
+  forall (ksize : K -> N) (vsize : V -> N) (fixed_k fixed_v : bool) (page_size : N) (sep : K -> K -> K),
+  valid_sep cmp sep ->
+  forall (entry_eqb : K * V -> K * V -> bool) (bt : @btree K V) lo hi p n, TreeInv cmp bt ->
+  let '(os, x) := t_xrun cmp ksize vsize fixed_k fixed_v page_size sep entry_eqb p (repeat false n) (t_extract_new bt lo hi) in
+  let '(os', st) := ext_run p (repeat false n) (ext_begin cmp (abs_tree bt) lo hi) in
+  os = os' /\
+  TreeInv cmp (t_extract_close cmp ksize vsize fixed_k fixed_v page_size sep entry_eqb x) /\
+  abs_tree (t_extract_close cmp ksize vsize fixed_k fixed_v page_size sep entry_eqb x) = ext_finish st.
+Proof. exact (@t_extract_backward_refines). Qed.
+
+(* both one-ended consumptions through the same script runner (front = true: n x next(); false: n x next_back()) *)
+Theorem c04_extract_onedir_refines : forall K V (cmp : K -> K -> comparison), OrderLaws cmp ->
+  forall (ksize : K -> N) (vsize : V -> N) (fixed_k fixed_v : bool) (page_size : N) (sep : K -> K -> K),
+  valid_sep cmp sep ->
+  forall (entry_eqb : K * V -> K * V -> bool) (bt : @btree K V) lo hi p (front : bool) n, TreeInv cmp bt ->
+  let '(os, x) := t_xrun cmp ksize vsize fixed_k fixed_v page_size sep entry_eqb p (repeat front n) (t_extract_new bt lo hi) in
+  let '(os', st) := ext_run p (repeat front n) (ext_begin cmp (abs_tree bt) lo hi) in
+  os = os' /\
+  TreeInv cmp (t_extract_close cmp ksize vsize fixed_k fixed_v page_size sep entry_eqb x) /\
+  abs_tree (t_extract_close cmp ksize vsize fixed_k fixed_v page_size sep entry_eqb x) = ext_finish st.
+Proof. exact (@t_extract_onedir_refines). Qed.
+
+(* FULL STATEMENT, NOT A THEOREM (missing): c04_extract_mixed_refines -- the same conclusion for EVERY script
+   (list bool), i.e. with `repeat front n` replaced by an arbitrary `script` in both lines above.  What is missing is
+   the double-ended protocol of RangeMut: park (a live end becomes Parked / Pending with a leaf snapshot, its open run
+   spliced), activate (reseek by the own bound, re-attach the batch when the landed leaf equals the snapshot, else
+   resolve_batch = delete by key), entry_in_range against the PEER's moving bound, close with one end pending.
+   An instance is computed below (c04_instance_extract_mixed_agrees); per run the model is compared with redb (S2)
+   and with the specification (SPEC! marker). *)
 
 (* PARTIAL (explicit op coverage).  Covered constructors of ProgramX.xop:
      XBase  (every read query, insert, remove, pop_first, pop_last),
@@ -394,6 +434,20 @@ Theorem c04_program_refines_partial : forall K V (cmp : K -> K -> comparison), O
   TreeInv cmp bt' /\ (xs, abs_tree bt') = spec_run_x cmp ops (abs_tree bt).
 Proof. exact (@program_x_refines_lemma). Qed.
 
+(* PARTIAL (explicit op coverage): every constructor of ProgramX.xop as above (XE) PLUS extract_if / extract_from_if
+   consumed from one end: XExtractOne lo hi p front n = the iterator created over [lo, hi], `n` calls of next()
+   (front = true) or next_back() (front = false), then dropped; output = the yielded entries.
+   NOT covered: extract scripts mixing next() and next_back() (full statement: the same with
+   XExtract lo hi p (script : list bool); see c04_extract_mixed_refines above). *)
+Theorem c04_program_refines_onedir_partial : forall K V (cmp : K -> K -> comparison), OrderLaws cmp ->
+  forall (ksize : K -> N) (vsize : V -> N) (fixed_k fixed_v : bool) (page_size : N)
+         (sep : K -> K -> K) (inplace : list (K * V) -> K -> V -> bool) (blank : V -> V) (entry_eqb : K * V -> K * V -> bool),
+  valid_sep cmp sep ->
+  forall (ops : list (@xope K V)) (bt : @btree K V), TreeInv cmp bt ->
+  let '(xs, bt') := run_xe cmp ksize vsize fixed_k fixed_v page_size sep inplace blank entry_eqb ops bt in
+  TreeInv cmp bt' /\ (xs, abs_tree bt') = spec_run_xe cmp ops (abs_tree bt).
+Proof. exact (@program_xe_refines_lemma). Qed.
+
 (* non-vacuity: guard writes and retain_in on the tree built above (64-byte "page", height 2) *)
 Example c04_nonvacuous_guard :
   let '(x, bt1) := apply_gop key_cmp key_size val_size true false 64%N ex_sep (fun _ _ _ => false) (fun v => v)
@@ -409,6 +463,48 @@ Example c04_nonvacuous_extract_forward :
   List.map (option_map fst) os = [Some (KU64 3); Some (KU64 5); Some (KU64 7); Some (KU64 11); Some (KU64 13)] /\
   tree_checkb key_cmp bt1 = true /\ tlen bt1 = 15%N /\ tget key_cmp bt1 (KU64 7) = None /\ tget key_cmp bt1 (KU64 15) <> None.
 Proof. vm_compute. repeat split; try reflexivity. discriminate. Qed.
+
+(* non-vacuity of c04_extract_backward_refines: 5 x next_back() of extract_from_if over (2,19] with an odd-key
+   predicate on the height-2 tree (7 leaves [1 2 3][4 5][6 7][8 10 11 12][13 14 15 17][18 19 20][21 22]); the scan
+   crosses three leaves backward, two of them are rewritten, the tree ends with 6 leaves *)
+Definition ex_odd (k : key) (v : bytes) : bool := match k with KU64 n => N.odd n | _ => false end.
+Example c04_nonvacuous_extract_backward :
+  let '(os, x) := t_xrun key_cmp key_size val_size true false 64%N ex_sep entry_eqb ex_odd (repeat false 5)
+                    (t_extract_new ex_built (Excluded (KU64 2)) (Included (KU64 19))) in
+  let bt1 := t_extract_close key_cmp key_size val_size true false 64%N ex_sep entry_eqb x in
+  List.map (option_map fst) os = [Some (KU64 19); Some (KU64 17); Some (KU64 15); Some (KU64 13); Some (KU64 11)] /\
+  (os, abs_tree bt1) = extract_script key_cmp (abs_tree ex_built) (Excluded (KU64 2)) (Included (KU64 19)) ex_odd (repeat false 5) /\
+  tree_checkb key_cmp bt1 = true /\ tlen bt1 = 15%N /\ length (bt_leaves bt1) = 6%nat /\
+  tget key_cmp bt1 (KU64 13) = None /\ tget key_cmp bt1 (KU64 7) <> None.
+Proof. vm_compute. repeat split; try reflexivity. discriminate. Qed.
+
+(* non-vacuity of c04_program_refines_onedir_partial: a program with a back-consumed and a front-consumed extract *)
+Example c04_nonvacuous_program_onedir :
+  let ops := [XExtractOne (Excluded (KU64 2)) (Included (KU64 19)) ex_odd false 3;
+              XE (XBase (TInsert (KU64 9) [9]%N));
+              XExtractOne Unbounded (Excluded (KU64 12)) ex_odd true 4;
+              XE (XBase (TQuery QLen))] in
+  let '(xs, bt1) := run_xe key_cmp key_size val_size true false 64%N ex_sep (fun _ _ _ => false) (fun v => v) entry_eqb ops ex_built in
+  (xs, abs_tree bt1) = spec_run_xe key_cmp ops (abs_tree ex_built) /\ tree_checkb key_cmp bt1 = true /\ tlen bt1 = 14%N.
+Proof. vm_compute. repeat split; reflexivity. Qed.
+
+(* AN INSTANCE, not a theorem of generality: a MIXED script on the same tree -- next() and next_back() alternate
+   over [3,20) with the predicate k mod 3 <> 0; entries are removed at both ends (4 5 7 8 10 from the front,
+   19 17 14 13 11 from the back), the two ends meet INSIDE the leaf [8 10 11 12] (pending batches of both ends in
+   one leaf), then four more calls return None.  The RangeMut machine agrees with the specification and the result
+   satisfies the checker.  The general statement is c04_extract_mixed_refines (comment above; not proved). *)
+Definition ex_mod3 (k : key) (v : bytes) : bool := match k with KU64 n => negb (N.eqb (n mod 3) 0) | _ => false end.
+Definition ex_alt : list bool := [true; false; true; false; true; false; true; false; true; false; true; false; true; false].
+Example c04_instance_extract_mixed_agrees :
+  let '(os, x) := t_xrun key_cmp key_size val_size true false 64%N ex_sep entry_eqb ex_mod3 ex_alt
+                    (t_extract_new ex_built (Included (KU64 3)) (Excluded (KU64 20))) in
+  let bt1 := t_extract_close key_cmp key_size val_size true false 64%N ex_sep entry_eqb x in
+  (os, abs_tree bt1) = extract_script key_cmp (abs_tree ex_built) (Included (KU64 3)) (Excluded (KU64 20)) ex_mod3 ex_alt /\
+  List.map (option_map fst) (firstn 10 os) =
+    [Some (KU64 4); Some (KU64 19); Some (KU64 5); Some (KU64 17); Some (KU64 7); Some (KU64 14); Some (KU64 8); Some (KU64 13);
+     Some (KU64 10); Some (KU64 11)] /\
+  skipn 10 os = [None; None; None; None] /\ tree_checkb key_cmp bt1 = true /\ tlen bt1 = 10%N /\ length (bt_leaves bt1) = 4%nat.
+Proof. vm_compute. repeat split; reflexivity. Qed.
 
 Definition ex_pred (k : key) (v : bytes) : bool := match k with KU64 n => N.even n | _ => true end.
 Example c04_nonvacuous_retain :
